@@ -126,6 +126,8 @@ type IdP struct {
 	OnToken func(call *TokenCall) string
 	// OnJWKS is called at JWKS-endpoint entry; returning false makes it answer 500.
 	OnJWKS func() bool
+	// ChallengeMethods, if set, is advertised as code_challenge_methods_supported in the discovery document.
+	ChallengeMethods []string
 	// NoEndSession leaves end_session_endpoint out of the discovery document.
 	NoEndSession bool
 	JWKSHits     int64
@@ -287,6 +289,9 @@ func (p *IdP) ServeHTTP(w http.ResponseWriter, r *http.Request) {
 		}
 		if !p.NoEndSession {
 			d["end_session_endpoint"] = p.EndSessionURL()
+		}
+		if p.ChallengeMethods != nil {
+			d["code_challenge_methods_supported"] = p.ChallengeMethods
 		}
 		b, _ := json.Marshal(d)
 		if p.DiscBody != nil {
